@@ -117,7 +117,10 @@ func verifFit(c *Context, d *Decimal) bool {
 		fit = verifAnd(fit, ndr <= P)
 	}
 	fit = verifAnd(fit, int64(d.Exponent)+ndr-1 <= emax)
-	fit = verifAnd(fit, verifOr(d.Coeff.Sign() == 0, int64(d.Exponent) >= etiny))
+	if P > 0 {
+		// (with rounding disabled the subnormal exponent Emin-P+1 is not a meaningful bound)
+		fit = verifAnd(fit, verifOr(d.Coeff.Sign() == 0, int64(d.Exponent) >= etiny))
+	}
 	return fit
 }
 
